@@ -168,6 +168,19 @@ def glob():
 LEAVES = {'*': {'_default': 5, '_emit': True}}
 
 
+def shape_of(x, depth=2):
+    """{port: sorted keys of the port's update}: what Store.apply_update must not
+    take out of the caller's dictionaries (C08: 'the update object handed in is
+    not modified').  What the structural operations do inside their own
+    directives (a _divide merges the daughters' steps into their processes) is
+    not covered by that sentence and not compared."""
+    if isinstance(x, dict) and depth > 0:
+        return {k: shape_of(v, depth - 1) for k, v in x.items()}
+    if isinstance(x, dict):
+        return sorted(map(str, x))
+    return type(x).__name__
+
+
 class Director(Process):
     """issues the operations whose mode is 'proc' (the others are the step's)"""
     defaults = {'script': []}
@@ -190,7 +203,11 @@ class Director(Process):
         self.i += 1
         if op.get('mode', 'proc') != self.MODE:
             return {}
-        return structural_update(op, self.tree_tpl, self.par)
+        upd = structural_update(op, self.tree_tpl, self.par)
+        # the update object handed to the engine must come back unmodified
+        # (its shape is compared: the processes in it are not comparable)
+        self.handed = (upd, shape_of(upd))
+        return upd
 
 
 class StepDirector(Director, Step):
@@ -444,6 +461,12 @@ def run_history(ops, initial=(), parallel=False, via_composite=False):
              'out': oview['out'] if isinstance(oview.get('out'), dict) else none}
         rec['watch'] = watch
         rec['bare'] = BARE[0]
+        rec['updmut'] = False
+        for d in (director, sdirector):
+            handed = getattr(d, 'handed', None)
+            if handed is not None and shape_of(handed[0]) != handed[1]:
+                rec['updmut'] = True
+            d.handed = None
         w = (oview or {}).get('w', {}) if watch else {}
         rec['wview'] = w if isinstance(w, dict) and all(isinstance(v, int) for v in w.values()) \
             else none
